@@ -417,7 +417,9 @@ def render(case, d):
     for inp, files in case["evidence"].items():
         paths = []
         for rel, rows in zip(input_names(case, inp, len(files)), files):
-            if inp == "mq":
+            if inp == "mq" and case.get("quant"):
+                hdr, out = quant_evidence_table(case, rows)
+            elif inp == "mq":
                 hdr = ["Modified sequence", "Leading proteins", "Leading razor protein", "PEP", "Score", "Experiment", "id"]
                 out = [[r["pep"], r["prot"][0], r["razor_prot"], _cell(r["score"]), "10", "E1", str(i)] for i, r in enumerate(rows)]
             else:
@@ -445,7 +447,10 @@ def render(case, d):
     for k, flag in DIG_FLAGS:
         if f.get(k):
             argv += [flag] + [str(x) for x in f[k]]
-    argv.append("--suppress_missing_peptide_warning")
+    if not case.get("quant") or case["quant"].get("suppress", True):
+        argv.append("--suppress_missing_peptide_warning")
+    if case.get("quant"):
+        argv += ["--do_quant", "--skip_lfq"]
     return argv
 
 
@@ -463,6 +468,8 @@ def classify(e):
         return "missing_fasta"
     if t == "FileNotFoundError" and "Could not find method" in msg:
         return "unknown_method"
+    if t == "ValueError" and "SILAC channels" in msg:
+        return "bad_silac_channels"
     return None
 
 
@@ -635,6 +642,7 @@ def _impl_cells(header, rows):
 
 def _model_cells(header, rows):
     nc = _num_cols(header)
+    kinds = [quant_cell_kind(h) for h in header]
     out = []
     for r in rows:
         o = []
@@ -643,6 +651,9 @@ def _model_cells(header, rows):
                 n, dn = c.split("/")
                 f = Fraction(int(n), int(dn))
                 o.append(rat(f.numerator / f.denominator))
+            elif i < len(kinds) and kinds[i] and "/" in c:
+                n, dn = c.split("/")
+                o.append(format_quant_cell(kinds[i], Fraction(int(n), int(dn))))
             else:
                 o.append(c)
         out.append(o)
@@ -693,6 +704,12 @@ def model_request(case, impl_out):
         if inp in case["evidence"]:
             req[inp] = [[{"pep": r["pep"], "score": r["score"], "prot": r["prot"], "razor_prot": r.get("razor_prot", "")} for r in rows]
                         for rows in case["evidence"][inp]]
+    if case.get("quant"):
+        req["op"] = "cli_quant"
+        req["do_quant"] = True
+        req["skip_lfq"] = True
+        req["cells"] = [[quant_cells(r["q"]) for r in rows] for rows in case["evidence"].get("mq", [])]
+        req["ibaq_run_rule"] = QUANT_IBAQ_RULE == "run"
     return req
 
 
@@ -721,6 +738,8 @@ def model_view(case, resp, impl_out):
             fi = pl.float_identities(c, t, o)
             if fi:
                 return {"float_identity_broken": "method %d (%s): %s" % (i, case["methods"][i], fi)}
+        if t.get("quant") and quant_near_tie(t["quant"], case):
+            skipped_near_tie = True
         mv = pl.model_view({}, {"rows": t["rows"], "pass1": t["pass1"], "pass2": t["pass2"]}, None)
         hdr, rows = (t["records"][0], t["records"][1:]) if t["records"] else ([], [])
         methods.append({"pil": [[p, rat(pl.fl(s)), pr] for p, s, pr in t["pil"]], "rows": mv["rows"], "passes": mv["passes"],
@@ -1087,6 +1106,233 @@ def shrink(case):
 
 
 # ------------------------------------------------------------------------------------------------
+# quantification runs: `--do_quant --skip_lfq` on MaxQuant evidence (model: lean/PgFdr/Model/CliQuant.lean, op "cli_quant")
+# ------------------------------------------------------------------------------------------------
+# identifiers of the iBAQ peptide numbers: "first" = first word of the FASTA header, which is what writers/factory.py asks
+# the digest for whatever --fasta_use_uniprot_id / --gene_level say (the code as it is); "run" = the run's identifier rule
+# (the repair proposed in fixes/C12-ibaq-identifier-rule.diff).  Decides the model request and the recomputation alike.
+QUANT_IBAQ_RULE = os.environ.get("VERIF_QUANT_IBAQ_RULE", "run")  # "run": the identifier rule of the run (repaired by /repo fix); "first" = the pinned behaviour
+QUANT_EXPS = ["E1", "E2", "E10", "b", "B"]  # `sorted(set(...))` is code-point order: B E1 E10 E2 b
+QUANT_SILAC = {0: [], 2: ["L", "H"], 3: ["L", "M", "H"]}
+COVERAGE_HEADERS = ("Sequence coverage [%]", "Unique + razor sequence coverage [%]", "Unique sequence coverage [%]")
+
+
+def gen_quant_case(rng, tier):
+    """a command line with MaxQuant methods only, every evidence row carrying the quantification cells: 1-3 experiments,
+    optional fractions, charges 2-3, sibling rows of a precursor in other runs (match-between-runs rows = empty PEP,
+    re-identifications with another PEP), integer intensities (sums exact), label free / SILAC 2 / SILAC 3 / TMT 2"""
+    case = gen_case(rng, tier, only_inputs=("mq",))
+    lay = {"silac": rng.choice([0, 0, 0, 2, 3]), "tmt": rng.choice([0, 0, 0, 2]), "has_fraction": rng.random() < 0.5}
+    exps = rng.sample(QUANT_EXPS, rng.choice([1, 2, 2, 3]))
+    files = case["evidence"].get("mq", [])
+    names = (case.get("names") or {}).get("mq") or [str(i) for i in range(len(files))]
+    next_id = [0]
+
+    def cells(z=None):
+        t = rng.random()
+        inten = None if t < 0.03 else "empty" if t < 0.08 else rat(rng.randint(0, 10 ** rng.choice([3, 5, 6])))
+        q = {"id": next_id[0], "z": z if z is not None else rng.choice([2, 2, 3]), "exp": rng.choice(exps),
+             "frac": str(rng.choice([1, 2, 3])) if lay["has_fraction"] else "-1", "int": inten,
+             "silac": [rat(rng.randint(0, 50000)) for _ in range(lay["silac"])],
+             "tmt": [rat(rng.randint(0, 30000)) for _ in range(3 * lay["tmt"])]}
+        next_id[0] += 1
+        return q
+
+    first = {}
+    for fi, rows in enumerate(files):
+        if names[fi] in first:
+            files[fi] = files[first[names[fi]]]
+            continue
+        first[names[fi]] = fi
+        out = []
+        for r in rows:
+            r = dict(r, q=cells())
+            out.append(r)
+            for _ in range(rng.choice([0, 0, 1, 1, 2, 3])):
+                sib = dict(r, q=cells(r["q"]["z"] if rng.random() < 0.7 else None))
+                t = rng.random()
+                if t < 0.45:
+                    sib["score"] = "nan"  # a match-between-runs row
+                elif t < 0.75:
+                    sib["score"] = rat(float(rng.choice(PEP_GRID)))
+                out.append(sib)
+        rng.shuffle(out)
+        files[fi] = out
+    case["quant"] = {"layout": lay, "suppress": rng.random() < 0.5}
+    return case
+
+
+def _num_text(x):
+    """protocol number (R | None = NaN | "empty") -> field text of evidence.txt"""
+    if x is None:
+        return "NaN"
+    if x == "empty":
+        return ""
+    f = unrat(x)
+    return str(f.numerator) if f.denominator == 1 else repr(f.numerator / f.denominator)
+
+
+def _num_val(x):
+    """protocol number -> what the parser holds (R, or None for NaN; an empty cell is 0)"""
+    return None if x is None else (["0", "1"] if x == "empty" else x)
+
+
+def quant_evidence_table(case, rows):
+    lay = case["quant"]["layout"]
+    hdr = ["Modified sequence", "Leading proteins", "Leading razor protein", "PEP", "Score", "Experiment", "Charge", "Intensity", "Raw file"]
+    if lay["has_fraction"]:
+        hdr.append("Fraction")
+    hdr.append("id")
+    hdr += ["Intensity " + c for c in QUANT_SILAC[lay["silac"]]]
+    for kind in ("Reporter intensity corrected ", "Reporter intensity ", "Reporter intensity count "):
+        hdr += [kind + str(i) for i in range(1, lay["tmt"] + 1)]
+    out = []
+    for r in rows:
+        q = r["q"]
+        line = [r["pep"], r["prot"][0], r["razor_prot"], _cell(r["score"]), "10", q["exp"], str(q["z"]), _num_text(q["int"]),
+                "raw_%s_%s" % (q["exp"], q["frac"])]
+        if lay["has_fraction"]:
+            line.append(q["frac"])
+        line.append(str(q["id"]))
+        line += [_num_text(x) for x in q["silac"]] + [_num_text(x) for x in q["tmt"]]
+        out.append(line)
+    return hdr, out
+
+
+def quant_cells(q):
+    return {"id": q["id"], "z": q["z"], "exp": q["exp"], "frac": q["frac"], "int": _num_val(q["int"]),
+            "silac": [_num_val(x) for x in q["silac"]], "tmt": [_num_val(x) for x in q["tmt"]]}
+
+
+def quant_cell_kind(h):
+    """which formatter the MaxQuant writer applies to the cells of a column: '%.0f' (floats handed to
+    `_format_extra_columns`), '%.1f' of the hundredfold (sequence coverage), None = text as it is"""
+    if h in COVERAGE_HEADERS or h.startswith("Sequence coverage [%] "):
+        return "cov"
+    if h == "Intensity" or h == "iBAQ" or h.startswith("Intensity ") or h.startswith("iBAQ ") or h.startswith("Reporter intensity "):
+        return "f0"
+    return None
+
+
+def fmt0(fr):
+    """'%.0f' % (the double nearest to fr): round half to even on the exact binary value, done with integers"""
+    v = fr.numerator / fr.denominator
+    f = Fraction(*v.as_integer_ratio())
+    sign = "-" if f < 0 else ""
+    f = abs(f)
+    n, rem = divmod(f.numerator, f.denominator)
+    if 2 * rem > f.denominator or (2 * rem == f.denominator and n % 2 == 1):
+        n += 1
+    return "-0" if (n == 0 and sign) else sign + str(n)
+
+
+def format_quant_cell(kind, fr):
+    if kind == "cov":
+        return "%.1f" % ((fr.numerator / fr.denominator) * 100)  # the code: (sum / len) * 100 on doubles
+    return fmt0(fr)
+
+
+def quant_near_tie(qv, case):
+    """a running mean of the finite PEPs of the quantified precursors within 1e-9 (relative) of --psm_fdr_cutoff: the float
+    scan of calc_post_err_prob_cutoff and the exact one may cross at different elements (the PEPs are decimal fractions)"""
+    level = unrat(case["psm"])
+    vals = sorted(unrat(x) for x in qv["peps"] if not isinstance(x, str))
+    s = Fraction(0)
+    for k, v in enumerate(vals):
+        s += v
+        m = s / (k + 1)
+        if abs(m - level) <= abs(level) * Fraction(1, 10**9) and not (k == 0 and m == level):
+            return True
+    return False
+
+
+def truth_ibaq(case, rule=None):
+    """protein -> number of distinct fully specific peptides of length max(6, min)..min(30, max) without missed cleavages
+    (own digestion), over every FASTA file and every digestion parameter set of the command line; identifiers by `rule`"""
+    if rule is None:
+        rule = QUANT_IBAQ_RULE
+    if rule == "run":
+        rule = id_rule(case["flags"], falls_back_to_pseudo_genes(case))
+    m = {}
+    for f in case["fasta"]:
+        for ps in case["psets"]:
+            for hdr, seq, gen in _stream(_records(f), case["flags"].get("contains_decoys"), ps["special_aas"]):
+                pid = digest_id(hdr, gen, rule)
+                if not pid:
+                    continue
+                for p in dict.fromkeys(gen_cli.digest_full(seq, ps["enzyme"], 0, max(6, ps["min_length"]), min(30, ps["max_length"]))):
+                    m.setdefault(p, []).append(pid)
+    n = {}
+    for prots in m.values():
+        for q in dict.fromkeys(prots):
+            n[q] = n.get(q, 0) + 1
+    return n
+
+
+def strip_mods(mod):
+    import re
+
+    return re.sub(r"\[[^]]*\]", "", re.sub(r"\([^)]*\)", "", mod)).replace(")", "")
+
+
+def quant_evidence_truth(case, name):
+    """the evidence rows of a MaxQuant method as the property sees them: per row the modified sequence, the protein list
+    (through the harness's own digest of the FASTA for the parameter set of the file's position when the method remaps,
+    the file's own list otherwise), PEP and quantification cells.  None: not stated here (semi-specific digestion)."""
+    t = shipped()[name]
+    files = case["evidence"].get("mq") or []
+    if remaps(t):
+        if any(ps["digestion"] != "full" for ps in case["psets"]):
+            return None
+        rule = id_rule(case["flags"], falls_back_to_pseudo_genes(case))
+        maps = [truth_map(case, ps, rule) for ps in case["psets"]]
+        if len(maps) == 1:
+            maps = maps * len(files)
+    else:
+        maps = [None] * len(files)
+    out = []
+    for rows, m in zip(files, maps):
+        one = []
+        for r in rows:
+            mod = r["pep"][1:-1]
+            if m is not None:
+                prot = list(m.get(strip_mods(mod), []))
+            elif t.get("sharedPeptides") == "razor":
+                prot = r["razor_prot"].split(";")
+            else:
+                prot = r["prot"][0].split(";")
+            q = r["q"]
+            one.append({"id": q["id"], "pep": mod, "z": q["z"], "exp": q["exp"], "frac": q["frac"], "prot": prot, "int": q["int"],
+                        "pp": r["score"], "silac": q["silac"], "tmt": q["tmt"]})
+        out.append(one)
+    return out
+
+
+def run_oracle(case, impl_out):
+    """the run completes, one run_method per method, every method whose input was given wrote its table"""
+    if not isinstance(impl_out, dict):
+        return "no result"
+    if "exc" in impl_out:
+        return "the command line %s raised %s: %s" % (describe(case), impl_out["exc"], impl_out.get("msg"))
+    if impl_out["err"] == "no_ranked_groups":
+        return None
+    if impl_out["err"] is not None:
+        return "%s was refused (%s) although every method is shipped and the input is valid" % (describe(case), impl_out["err"])
+    sm = shipped()
+    calls = impl_out["_rec"]["calls"]
+    if len(calls) != len(case["methods"]):
+        return "%d methods were given, %d were run" % (len(case["methods"]), len(calls))
+    if not impl_out["files_consistent"]:
+        return "the files left behind are not the tables the methods wrote: %r" % (impl_out["_rec"]["final_files"],)
+    for name, c in zip(case["methods"], calls):
+        if not case["evidence"].get(input_of(sm[name])):
+            continue
+        if c["gpr"] is None or c["written"] is None:
+            return "method %s (input given) wrote no table" % name
+    return None
+
+
+# ------------------------------------------------------------------------------------------------
 # mixin: adds command-line glue cases to a property module's P (class P(CliMixin, Base))
 # ------------------------------------------------------------------------------------------------
 class CliMixin:
@@ -1145,3 +1391,46 @@ class CliMixin:
         if isinstance(case, dict) and case.get("kind") == "cli_model":
             return shrink(case)
         return super().shrink(case)
+
+
+class QuantCliMixin(CliMixin):
+    """command lines with `--do_quant --skip_lfq` (MaxQuant methods); the property module supplies
+    `quant_table_oracle(case, method_name, recorded_call, written_text)` (its own statement on the written table)"""
+
+    def gen_case(self, rng, tier):
+        if rng.random() < self.cli_model_share:
+            return gen_quant_case(rng, tier)
+        return super(CliMixin, self).gen_case(rng, tier)
+
+    def oracle(self, case, impl_out):
+        if isinstance(case, dict) and case.get("kind") == "cli_model":
+            o = run_oracle(case, impl_out)
+            if o is None and impl_out.get("err") is None:
+                sm = shipped()
+                for name, c in zip(case["methods"], impl_out["_rec"]["calls"]):
+                    if not case["evidence"].get(input_of(sm[name])):
+                        continue
+                    o = self.quant_table_oracle(case, name, c["gpr"], c["written"]["text"])
+                    if o:
+                        o = "method %s, written table %s (--psm_fdr_cutoff %r --protein_group_fdr_threshold %r): %s" % (
+                            name, c["written"]["file"], pl.fl(case["psm"]), pl.fl(case["thr"]), o)
+                        break
+            return None if o is None else "command line %s --do_quant --skip_lfq: %s" % (describe(case), o)
+        return super().oracle(case, impl_out)
+
+    def features(self, case, impl_out):
+        f = super().features(case, impl_out)
+        if isinstance(case, dict) and case.get("kind") == "cli_model" and case.get("quant"):
+            lay = case["quant"]["layout"]
+            f += ["cli_quant", "cli_quant:silac=%d" % lay["silac"], "cli_quant:tmt=%d" % lay["tmt"],
+                  "cli_quant:fraction_column=%s" % lay["has_fraction"]]
+            rows = [r for fl_ in case["evidence"].get("mq", []) for r in fl_]
+            f.append("cli_quant:experiments=%d" % len({r["q"]["exp"] for r in rows}))
+            if any(r["score"] == "nan" for r in rows):
+                f.append("cli_quant:has_mbr")
+            for m in (impl_out.get("methods") or []) if isinstance(impl_out, dict) else []:
+                if m and m.get("table"):
+                    f.append("cli_quant:rows_written=%s" % min(len(m["table"]["rows"]), 5))
+                    if m.get("rows") is not None and len(m["table"]["rows"]) < len(m["rows"]):
+                        f.append("cli_quant:group_without_precursors_removed")
+        return f
